@@ -8,11 +8,14 @@ Property theorems only.  Model: `Sched/Model.lean`, with the D10 repair (`update
 `Doomed n` = some node upstream of `n` has a failed job.  Failing bodies are those for which the schedule
 plays `finishErr`; the theorems hold for EVERY schedule, so for every fail set and every completion order.
 
-Granularity: the model interleaves environment moves with the loop at poll granularity — nothing changes on disk
-while `get_runnable_tasks` runs.  The code does not guarantee this; before the D64 repair a job that failed *during*
-a poll could abort the whole workflow (`C14_stale_tables_witness`).  After the repair `get_runnable_tasks` refreshes
-every predecessor first and decides from that one snapshot (`C14_stale_tables_regression`); the gated witness on the
-real code is a regression case of the check.
+Granularity: `C14_full` is stated for the semantics in which nothing changes on disk while `get_runnable_tasks`
+runs; `C14_full_interleaved` is the same statement for the finer semantics of `Sched/Interleaved.lean`, in which
+bodies start, finish and fail before every `node.done` / `p.done` read of a poll (one `update_status` call is still
+atomic; futures complete between polls only).  `C14_race_instance` is the first gated witness of the check in that
+semantics.  Before the D64 repair a job that failed *during* a poll could abort the whole workflow
+(`C14_stale_tables_witness`).  After the repair `get_runnable_tasks` refreshes every predecessor first and decides
+from that one snapshot (`C14_stale_tables_regression`, `nodeDecide_spec`: no hypothesis on the freshness of the
+tables is needed any more); the gated witnesses on the real code are regression cases of the check.
 -/
 namespace PydraModel.Sched
 open PydraModel.Graph
@@ -78,6 +81,74 @@ theorem C14_full {wf : Wf} {k : Option Nat} {sorted : List NodeId} (hw : WellFor
   rcases hcase with ⟨_, ho⟩ | ⟨⟨n, hn, hnd⟩, _⟩
   · rw [ho, hfin]
   · rw [hdone n hn] at hnd; exact absurd hnd (by simp)
+
+/-! ### the finer semantics: jobs may fail *while* a poll is scanning -/
+
+theorem C14_dependents_never_run_interleaved {wf : Wf} {k : Option Nat} {sorted : List NodeId}
+    (hw : WellFormed wf sorted) {st : St} (hi : InstantI wf k sorted st) :
+    (∀ n, Doomed wf st n → ¬ ((st.ns.get n).blk ≠ none ∧ (st.ns.get n).unrunnable = false)) ∧
+    (∀ c, c ∈ st.futured → ∃ n, c ∈ (st.ns.get n).cks ∧ ¬ Doomed wf st n) := by
+  have hs := sinv_instantI hw hi
+  refine ⟨fun n hd => doomed_not_started hs.ninv hd, ?_⟩
+  intro c hc
+  obtain ⟨n, hb, hu, hcn⟩ := hs.legit c hc
+  exact ⟨n, hcn, fun hd => doomed_not_started hs.ninv hd ⟨hb, hu⟩⟩
+
+def NormalEndI (wf : Wf) (k : Option Nat) (sorted : List NodeId) (sched : List (List Ev × Tape)) (o : Outcome)
+    (st : St) : Prop :=
+  runAsyncI wf k sorted sched = .done o st ∧ ∀ n, n ∈ wf.g.nodes → (st.ns.get n).isDone = true
+
+/-- C14, FULL for the finer semantics (order of tests after the D64 repair): whatever starts, finishes or fails
+    between any two status reads of any poll — the two gated witnesses of the check are instances — the conclusions
+    of `C14_full` hold -/
+theorem C14_full_interleaved {wf : Wf} {k : Option Nat} {sorted : List NodeId} (hw : WellFormed wf sorted)
+    (hac : Acyclic wf.g) (sched : List (List Ev × Tape)) (hok : SchedOK sched)
+    {o : Outcome} {st : St} (hend : NormalEndI wf k sorted sched o st) :
+    (∀ n, n ∈ wf.g.nodes → ¬ Doomed wf st n →
+      ∀ c, c ∈ (st.ns.get n).cks → c ∈ st.futured ∧ (st.w c = .ok ∨ st.w c = .err)) ∧
+    (∀ n, n ∈ wf.g.nodes → Doomed wf st n → (st.ns.get n).cks = []) ∧
+    (∀ c, st.w c ≠ .idle → ∃ n, c ∈ (st.ns.get n).cks ∧ ¬ Doomed wf st n) ∧
+    (∀ c, c ∈ st.errors ↔ st.w c = .err) ∧
+    o = (if st.errors = [] then Outcome.success else Outcome.failed st.errors) := by
+  obtain ⟨hrun, hdone⟩ := hend
+  have hstate : (runAsyncI wf k sorted sched).state? = some st := by rw [hrun]; rfl
+  have hg := good_runAsyncI hw.topo sched hok hstate
+  have hs := hg.s
+  obtain ⟨stp, hstp⟩ : ∃ stp, afterPoll wf k sorted stp = .done o st := by
+    rcases runFromI_done sched _ hrun with h1 | h1
+    · exact ⟨_, h1⟩
+    · exact h1
+  obtain ⟨hnf, _, _, _, hcase⟩ := afterPoll_done_normal hstp
+  obtain ⟨h1, h2, h3, h4⟩ := final_state hs hg.f hw.wip hac hdone hnf
+  refine ⟨fun n hn hd c hc => (h1 n hn hd).2.2 c hc, fun n hn hd => (h2 n hn hd).2, h3, h4, ?_⟩
+  have hfin : finish wf st = (if st.errors = [] then Outcome.success else Outcome.failed st.errors) := by
+    unfold finish
+    by_cases he : st.errors = []
+    · simp only [he, List.isEmpty_nil, Bool.not_true, Bool.false_eq_true, if_false, if_true]
+      have : wf.g.nodes.filter (fun n => !(st.ns.get n).errored.isEmpty) = [] := by
+        rw [List.filter_eq_nil_iff]
+        intro n _
+        simp only [Bool.not_eq_true', Bool.not_eq_false, List.isEmpty_iff]
+        apply List.eq_nil_iff_forall_not_mem.mpr
+        intro i hi
+        have := (h4 _).mpr ((hs.ninv.loc n).errErr i hi)
+        rw [he] at this; simp at this
+      rw [this]; simp
+    · have : st.errors.isEmpty = false := by simpa [List.isEmpty_iff] using he
+      simp [this, he]
+  rcases hcase with ⟨_, ho⟩ | ⟨⟨n, hn, hnd⟩, _⟩
+  · rw [ho, hfin]
+  · rw [hdone n hn] at hnd; exact absurd hnd (by simp)
+
+/-- the first gated witness of the check, in the finer semantics: p = 0, x = 1, y = 2, n = 3 (← p), z = 4 (← y);
+    p fails during the poll that follows y's completion, right before the refresh of p that `n` performs -/
+theorem C14_race_instance :
+    (match runAsyncI ⟨⟨[0, 1, 2, 3, 4], [(0, 3), (2, 4)], [], none⟩, fun n _ => [n], fun c => c⟩ none [0, 1, 2, 3, 4]
+        [([.acquire 0, .acquire 1, .acquire 2, .finishOk 1, .complete 1], []),
+         ([.finishOk 2, .complete 2], [[], [], [], [], [.finishErr 0]]),
+         ([.complete 0, .acquire 4, .finishOk 4, .complete 4], [])] with
+     | .done o st => some (o, st.futured, (st.ns.get 3).unrunnable)
+     | _ => none) = some (Outcome.failed [0], [0, 1, 2, 4], true) := by decide
 
 /-! ### regression of the repaired defect D10, and non-vacuity
 
